@@ -408,6 +408,10 @@ JAlign(ev, reg, opts) ==
       doRows == ev.fn \in {"align_exponents", "align_polynomials"}
       common == BShape(shapes)
       allNames == SortedNames(UNION {OpNames(reg[ev.args[i]]) : i \in 1..n})
+      \* operands that already carry one identical name tuple are aligned as far as names go, even if that tuple is
+      \* not in index order ("aligning already aligned arguments changes nothing"): both tuples are accepted then
+      inNames == {IF reg[ev.args[i]].v.kind = "poly" THEN reg[ev.args[i]].v.names ELSE <<0>> : i \in 1..n}
+      NamesOK(nm) == nm = allNames \/ (Cardinality(inNames) = 1 /\ nm \in inNames)
   IN IF doShape /\ ~BroadcastOK(shapes) THEN "ok"
      ELSE IF ev.out # "ret" THEN "raised"
      ELSE IF Len(ev.res) # n THEN "arity"
@@ -416,7 +420,7 @@ JAlign(ev, reg, opts) ==
                 want == IF doShape THEN DBroadcast(ds[i], common) ELSE ds[i]
                 own == ExpectDenAt(ev, i, "poly", want)
             IN IF own # "ok" THEN own
-               ELSE IF doNames /\ opts.retain_names /\ r.names # allNames THEN "names"
+               ELSE IF doNames /\ opts.retain_names /\ ~NamesOK(r.names) THEN "names"
                ELSE IF doNames /\ (r.names # ev.res[1].names \/ ~(RangeOf(r.names) \subseteq RangeOf(allNames))) THEN "names"
                ELSE IF doRows /\ (r.rows # ev.res[1].rows \/ r.keys # ev.res[1].keys) THEN "rows"
                ELSE "ok"])
